@@ -141,13 +141,16 @@ fn execute(ctx: &mut Ctx, case: &Case) {
         return;
     };
     if case.class == Class::Undecided {
+        ctx.sample("inconclusive:model-cannot-classify", json!({"program": case.text}));
         ctx.inconclusive("model cannot classify the program");
         return;
     }
     // If one substitution step of this program already differs from the model (C17's findings),
     // the real expansion follows other instructions than the model's and its recursion verdict
     // cannot be compared: not C18's business.
-    if !one_level_silent(ctx, prep, &case.invocations).is_empty() {
+    let differing = one_level_silent(ctx, prep, &case.invocations);
+    if !differing.is_empty() {
+        ctx.sample("inconclusive:substitution-step-differs", json!({"program": case.text, "differs": format!("{differing:?}")}));
         ctx.inconclusive("a substitution step differs from the model (reported by C17); recursion verdicts not comparable");
         return;
     }
